@@ -5,6 +5,7 @@
 import Driver.Util
 import ClairModel.Model.Join
 import ClairModel.Model.JoinScan
+import ClairModel.Model.JoinHist
 import ClairModel.Gen.JoinMatchers
 
 namespace Driver.C04
@@ -209,7 +210,97 @@ def answer (l : String) : String :=
     | _, _, _ => "bad-op")
   | _ => "bad-op"
 
+/-! ### histories: the Debian release table, the Alpine factory -/
+
+structure HState where
+  table : RelTable := []
+  alp : AlpState := {}
+
+def parseOutcome (s : String) : Option RelOutcome :=
+  if s == "s" then some .skip
+  else if s == "f" then some .fault
+  else if s.startsWith "v" then (s.drop 1).toInt?.map .version
+  else none
+
+def parseEntry (s : String) : Option (Bytes × RelOutcome) :=
+  match s.splitOn ":" with
+  | [c, o] => do
+    let c ← toB c
+    let o ← parseOutcome o
+    pure (c, o)
+  | _ => none
+
+def showHistOut : HistOut → String
+  | .enumOk => "ok"
+  | .enumErr => "err"
+  | .parsed [] => "parsed none"
+  | .parsed st => "parsed " ++ " | ".intercalate (st.map fun p => s!"{hx p.1} {showDist p.2}")
+
+def parseProbe (s : String) : Option Probe :=
+  if s == "o" then some .ok else if s == "x" then some .other else if s == "e" then some .netErr
+  else if s == "n" then some .notFound else none
+
+/-- `3.5=o,3.6=x` -/
+def parseDirs (s : String) : Option (List ((Nat × Nat) × Probe)) :=
+  if s == "-" then some [] else
+  (s.splitOn ",").mapM fun t =>
+    match t.splitOn "=" with
+    | [k, o] => (match k.splitOn ".", parseProbe o with
+      | [a, b], some p => (match a.toNat?, b.toNat? with
+        | some a, some b => some ((a, b), p)
+        | _, _ => none)
+      | _, _ => none)
+    | _ => none
+
+/-- `<hexrel>/<hexrepo>=o,…` -/
+def parseJsons (s : String) : Option (List ((Bytes × Bytes) × Probe)) :=
+  if s == "-" then some [] else
+  (s.splitOn ",").mapM fun t =>
+    match t.splitOn "=" with
+    | [k, o] => (match k.splitOn "/", parseProbe o with
+      | [a, b], some p => (match toB a, toB b with
+        | some a, some b => some ((a, b), p)
+        | _, _ => none)
+      | _, _ => none)
+    | _ => none
+
+def lookupProbe {α : Type} [BEq α] (m : List (α × Probe)) (k : α) : Probe :=
+  match m.find? fun e => e.1 == k with
+  | some e => e.2
+  | none => .notFound
+
+def showAlpOut : AlpOut → String
+  | .err => "err"
+  | .set [] => "set -"
+  | .set ns => "set " ++ ",".intercalate ((ns.foldl (fun acc k => insertSorted k acc) []).map hx)
+
+/-- the stateful ops -/
+def answerH (st : HState) (l : String) : HState × String :=
+  match Driver.words l with
+  | ["reset"] => ({}, "ok")
+  | "denum" :: ok :: es =>
+    (match bool? ok, es.mapM parseEntry with
+    | some ok, some es =>
+      let (t, o) := histStep st.table (.enumerate ok es)
+      ({ st with table := t }, showHistOut o)
+    | _, _ => (st, "bad-op"))
+  | "dparse" :: cs =>
+    (match cs.mapM toB with
+    | some cs => (st, showHistOut (histStep st.table (.parse cs)).2)
+    | none => (st, "bad-op"))
+  | ["alp", "new"] => ({ st with alp := {} }, "ok")
+  | ["alp", "f"] => let (a, o) := alpStep st.alp .stampFault; ({ st with alp := a }, showAlpOut o)
+  | ["alp", "n"] => let (a, o) := alpStep st.alp .notModified; ({ st with alp := a }, showAlpOut o)
+  | ["alp", "s", stamp, etag, dirs, jsons] =>
+    (match stamp.toNat?, toB etag, parseDirs dirs, parseJsons jsons with
+    | some stamp, some etag, some dirs, some jsons =>
+      let walk := alpWalk (fun a b => lookupProbe dirs (a, b)) (fun rel repo => lookupProbe jsons (rel, repo)) 64
+      let (a, o) := alpStep st.alp (.stampIs stamp etag walk)
+      ({ st with alp := a }, showAlpOut o)
+    | _, _, _, _ => (st, "bad-op"))
+  | _ => (st, answer l)
+
 end Driver.C04
 
 def main : IO Unit := do
-  Driver.foldLines (← IO.getStdin) (← IO.getStdout) () fun _ l => ((), Driver.C04.answer l)
+  Driver.foldLines (← IO.getStdin) (← IO.getStdout) ({} : Driver.C04.HState) Driver.C04.answerH
